@@ -119,7 +119,13 @@ impl<'a> InfModel<'a> {
         let c = self.c;
         let mut st = s.st.clone();
         let total = c.data.len() + c.expected.len() + 8;
-        let r = inflate_loop_from(&mut st, &c.data, s.ip, chunk, room, MZFlush::None, Vec::new());
+        let r = match guarded(|| inflate_loop_from(&mut st, &c.data, s.ip, chunk, room, MZFlush::None, Vec::new())) {
+            Ok(r) => r,
+            Err(p) => {
+                self.viol("panic", format!("inflate() panicked in the usual loop (chunk {}, room {}) from this state: {}", chunk as isize, room, p), path);
+                return;
+            }
+        };
         self.count("liveness_runs");
         let ok = r.code == 1 && s.delivered + r.out.len() == c.expected.len() && r.out[..] == c.expected[s.delivered..] && r.consumed == c.stream_len && (r.calls as usize) <= total;
         if !ok {
@@ -325,7 +331,10 @@ impl<'a> Model for InfModel<'a> {
                     // (first-call Finish is documented to fail regardless), or retryable
                     let mut probe = s.st.clone();
                     let mut big = vec![0u8; c.expected.len() + 64];
-                    let pr = inflate(&mut probe, &c.data[s.ip..], &mut big, MZFlush::Finish);
+                    let pr = match guarded(|| inflate(&mut probe, &c.data[s.ip..], &mut big, MZFlush::Finish)) {
+                        Ok(r) => r,
+                        Err(p) => fail!("panic", "inflate() panicked on a Finish call after Buf: {}", p),
+                    };
                     match mzres_code(&pr.status) {
                         -5 if pr.bytes_consumed == 0 && pr.bytes_written == 0 => {
                             if input_complete {
